@@ -1,0 +1,12 @@
+//go:build verif
+
+package nebula
+
+import "github.com/slackhq/nebula/handshake"
+
+// Verification hook for the `machine` correspondence engine (add-only, no behaviour).
+
+// VerifNewConnectionStateFromResult is newConnectionStateFromResult.
+func VerifNewConnectionStateFromResult(r *handshake.Result) (*ConnectionState, error) {
+	return newConnectionStateFromResult(r)
+}
